@@ -5,6 +5,7 @@ package c17
 import (
 	"bytes"
 	"context"
+	"encoding/hex"
 	"fmt"
 	"io"
 	"net/http"
@@ -12,6 +13,7 @@ import (
 	"net/url"
 	"runtime/debug"
 	"sort"
+	"strconv"
 	"strings"
 	"testing"
 	"time"
@@ -33,7 +35,8 @@ type Mut struct {
 	Cookie string `json:"cookie,omitempty"` // state | pkce: the jar entry that is changed
 	N      int    `json:"n,omitempty"`      // position / length / attempt index (taken modulo what is available)
 	Ch     string `json:"ch,omitempty"`     // replacement / appended character(s)
-	Keys   string `json:"keys,omitempty"`   // mint: A | B | Bhash | Bblock
+	Keys   string `json:"keys,omitempty"`   // mint: A | F<i> (the i-th foreign handler of the case) | B | Bhash | Bblock (fixed 32-byte keys)
+	By     string `json:"by,omitempty"`     // mint: lib = by a cookie handler of the library built with those keys; "" / model = by the model codec
 	Name   string `json:"name,omitempty"`   // mint: cookie name bound into the MAC
 	Value  string `json:"value,omitempty"`  // mint / plain: query | state | verifier | lit
 	Lit    string `json:"lit,omitempty"`
@@ -59,6 +62,13 @@ type Op struct {
 	TokenExtra bool   `json:"token_extra,omitempty"` // application passes an additional token-request parameter option
 }
 
+// KeyPair: the two keys of one cookie handler, hex encoded.
+type KeyPair struct {
+	Hash string `json:"hash"`          // HMAC key, 1-128 bytes
+	Enc  string `json:"enc,omitempty"` // AES key (16 / 24 / 32 bytes); "" = the handler signs only
+	Rel  string `json:"rel,omitempty"` // how the generator derived the pair from the RP's (informational; the labels are computed from the bytes)
+}
+
 type Case struct {
 	Router         string   `json:"router"`
 	PKCE           bool     `json:"pkce"`
@@ -73,6 +83,11 @@ type Case struct {
 	CustomHandlers bool     `json:"custom_handlers"` // application installs its own unauthorized / error handlers
 	Ops            []Op     `json:"ops"`
 	Conc           *Conc    `json:"conc,omitempty"` // set: concurrent-login case (TestConcurrentLogins), Ops unused
+	// KeysA: the keys of the RP's cookie handler (nil: the fixed 32-byte keys "A", encryption as Encrypt says; set: Encrypt
+	// repeats whether Enc is present). Foreign: handlers of OTHER deployments whose cookies end up in the browser (Mut.Keys
+	// "F<i>"); Foreign[i] with bytes equal to KeysA is another replica of the RP itself.
+	KeysA   *KeyPair  `json:"keys_a,omitempty"`
+	Foreign []KeyPair `json:"foreign,omitempty"`
 }
 
 // Conc describes a concurrent-login case: len(Logins) goroutines (each its own browser) are released by a barrier and perform
@@ -145,6 +160,157 @@ func genMutFree(t *rapid.T, label string) Mut {
 		m.Lit = rapid.StringMatching(`[A-Za-z0-9_-]{1,12}`).Draw(t, label+"lit")
 	}
 	return m
+}
+
+// ---- cookie keys --------------------------------------------------------------------
+
+func genBytes(t *rapid.T, label string, n int) []byte {
+	return rapid.SliceOfN(rapid.Byte(), n, n).Draw(t, label)
+}
+
+// genHashLen: HMAC keys of any length 1..128, weighted towards the lengths applications use (16, 32, 64 bytes, secrets a
+// little or a lot longer than the 64-byte block of SHA-256).
+func genHashLen(t *rapid.T, label string) int {
+	switch pick(t, label+"class", "32", "32", "64", "64", "65", "66-96", "66-96", "97-128", "128", "16", "1-15", "17-31", "33-63") {
+	case "32":
+		return 32
+	case "64":
+		return 64
+	case "65":
+		return 65
+	case "66-96":
+		return rapid.IntRange(66, 96).Draw(t, label)
+	case "97-128":
+		return rapid.IntRange(97, 128).Draw(t, label)
+	case "128":
+		return 128
+	case "16":
+		return 16
+	case "1-15":
+		return rapid.IntRange(1, 15).Draw(t, label)
+	case "17-31":
+		return rapid.IntRange(17, 31).Draw(t, label)
+	}
+	return rapid.IntRange(33, 63).Draw(t, label)
+}
+
+// genKeysA: the RP's keys. The last byte of the hash key is non-zero (HMAC pads short keys with zeros: a key and the same
+// key with trailing zeros are ONE key), so that every derived key below is a different HMAC key.
+func genKeysA(t *rapid.T, encrypt bool) (hash, enc []byte) {
+	hash = genBytes(t, "keyA-hash", genHashLen(t, "keyA-hash-len"))
+	if hash[len(hash)-1] == 0 {
+		hash[len(hash)-1] = 1
+	}
+	if encrypt {
+		enc = genBytes(t, "keyA-enc", rapid.SampledFrom([]int{32, 32, 16, 24}).Draw(t, "keyA-enc-len"))
+	}
+	return hash, enc
+}
+
+// genPos: a byte position below n, preferring the places where an implementation might stop looking at a key.
+func genPos(t *rapid.T, label string, n int) int {
+	var cands []int
+	for _, p := range []int{0, 15, 16, 31, 32, 63, 64, 65, n - 1, n - 1} {
+		if p >= 0 && p < n {
+			cands = append(cands, p)
+		}
+	}
+	switch pick(t, label+"kind", "boundary", "boundary", "any", "high") {
+	case "any":
+		return rapid.IntRange(0, n-1).Draw(t, label)
+	case "high":
+		return rapid.IntRange(n/2, n-1).Draw(t, label)
+	}
+	return rapid.SampledFrom(cands).Draw(t, label)
+}
+
+// genForeign: the keys of another deployment's cookie handler, derived from the RP's: unrelated, or sharing a prefix of
+// any length with the RP's hash key (one byte / the whole tail differs, the key goes on, the key stops early), the
+// encryption key equal, absent, unrelated, differing in one byte or of another AES size with a common prefix. At least one
+// of the two keys differs from the RP's.
+func genForeign(t *rapid.T, label string, hashA, encA []byte) KeyPair {
+	n := len(hashA)
+	hrel := pick(t, label+"hrel", "same", "indep", "flip", "flip", "tail", "extend", "extend", "cut")
+	if n == 1 && (hrel == "cut" || hrel == "tail") {
+		hrel = "flip"
+	}
+	hash := append([]byte{}, hashA...)
+	switch hrel {
+	case "indep":
+		hash = genBytes(t, label+"hash", genHashLen(t, label+"hash-len"))
+		if bytes.Equal(hash, hashA) {
+			hash[0] ^= 0x80
+		}
+	case "flip":
+		p := genPos(t, label+"hpos", n)
+		hash[p] ^= byte(rapid.IntRange(1, 255).Draw(t, label+"hxor"))
+		hrel = fmt.Sprintf("flip@%d", p)
+	case "tail":
+		p := genPos(t, label+"hpos", n)
+		hash[p] ^= byte(rapid.IntRange(1, 255).Draw(t, label+"hxor"))
+		copy(hash[p+1:], genBytes(t, label+"htail", n-p-1))
+		hrel = fmt.Sprintf("tail@%d", p)
+	case "extend":
+		k := rapid.IntRange(1, 16).Draw(t, label+"hext")
+		for i := 0; i < k; i++ {
+			hash = append(hash, byte(rapid.IntRange(1, 255).Draw(t, fmt.Sprintf("%shext%d", label, i))))
+		}
+		hrel = fmt.Sprintf("extend+%d", k)
+	case "cut":
+		m := 1 + genPos(t, label+"hpos", n-1)
+		hash = hash[:m]
+		hrel = fmt.Sprintf("cut@%d", m)
+	}
+	erel := pick(t, label+"erel", "same", "same", "same", "indep", "flip", "resize", "toggle")
+	if hrel == "same" && erel == "same" {
+		erel = pick(t, label+"erel2", "flip", "resize", "toggle", "indep")
+	}
+	if encA == nil && (erel == "flip" || erel == "resize") {
+		erel = "toggle"
+	}
+	enc := append([]byte(nil), encA...)
+	switch erel {
+	case "indep":
+		enc = genBytes(t, label+"enc", rapid.SampledFrom([]int{16, 24, 32}).Draw(t, label+"enc-len"))
+		if bytes.Equal(enc, encA) {
+			enc[0] ^= 0x80
+		}
+	case "flip":
+		p := genPos(t, label+"epos", len(enc))
+		enc[p] ^= byte(rapid.IntRange(1, 255).Draw(t, label+"exor"))
+		erel = fmt.Sprintf("flip@%d", p)
+	case "resize":
+		var sizes []int
+		for _, sz := range []int{16, 24, 32} {
+			if sz != len(encA) {
+				sizes = append(sizes, sz)
+			}
+		}
+		sz := rapid.SampledFrom(sizes).Draw(t, label+"enc-len")
+		if sz < len(enc) {
+			enc = enc[:sz]
+		} else {
+			enc = append(enc, genBytes(t, label+"enc-more", sz-len(enc))...)
+		}
+		erel = fmt.Sprintf("resize%d", sz)
+	case "toggle":
+		if encA != nil {
+			enc = nil
+		} else {
+			enc = genBytes(t, label+"enc", rapid.SampledFrom([]int{16, 24, 32}).Draw(t, label+"enc-len"))
+		}
+	}
+	return KeyPair{Hash: hex.EncodeToString(hash), Enc: hex.EncodeToString(enc), Rel: "hash:" + hrel + ",enc:" + erel}
+}
+
+// genKeys fills KeysA and Foreign: Foreign[0] is a replica of the RP (equal bytes), Foreign[1..3] are other deployments.
+func genKeys(t *rapid.T, c *Case) {
+	hashA, encA := genKeysA(t, c.Encrypt)
+	c.KeysA = &KeyPair{Hash: hex.EncodeToString(hashA), Enc: hex.EncodeToString(encA)}
+	c.Foreign = []KeyPair{{Hash: c.KeysA.Hash, Enc: c.KeysA.Enc, Rel: "replica"}}
+	for i := 1; i <= 3; i++ {
+		c.Foreign = append(c.Foreign, genForeign(t, fmt.Sprintf("foreign%d-", i), hashA, encA))
+	}
 }
 
 func genCallback(t *rapid.T, label string, browser int, latest map[int]int, nAttempts int, pkce bool, consumed bool) Op {
